@@ -313,9 +313,26 @@ func ParseContractFile(repo, rel string) (*ContractFile, error) {
 	var blocks []*block
 	var cur *block
 	schemaLo, schemaHi := 0, 0
+	inGhost := false
 	for _, rl := range lines {
 		t := strings.TrimSpace(rl.text)
+		if inGhost {
+			if t == "end" {
+				inGhost = false
+				cur = nil
+				continue
+			}
+			cur.lines = append(cur.lines, rl)
+			continue
+		}
 		if t == "" {
+			continue
+		}
+		if t == "ghost" {
+			inGhost = true
+			cur = &block{schemaLo: schemaLo, schemaHi: schemaHi}
+			cur.lines = append(cur.lines, rl)
+			blocks = append(blocks, cur)
 			continue
 		}
 		switch {
@@ -591,7 +608,7 @@ func desugar(s string) string {
 	return qualifySpec(r)
 }
 
-var reSpecFn = regexp.MustCompile(`(^|[^A-Za-z0-9_.])(EqT|EqTP|Eq|Same|Fresh|Old|Len|At|Perm|Sorted|Calls|NoCalls|Unchanged|Rest|Pulled|Val|IsNil|Zero|NonNil|SeqEq|Panics|PanicValue|Returns|Deep|Content|MapGet|MapHas|MapLen|Disjoint|Reach|IterSeq|IterLen|IterPos|IterAt|Result)\(`)
+var reSpecFn = regexp.MustCompile(`(^|[^A-Za-z0-9_.])(EqT|EqTP|Eq|SameArray|Same|Fresh|Old|Len|At|Perm|Sorted|Calls|NoCalls|Unchanged|Rest|Pulled|Val|IsNil|Zero|NonNil|SeqEq|Panics|PanicValue|Returns|Deep|Content|MapGet|MapHas|MapLen|Disjoint|Reach|IterSeq|IterLen|IterPos|IterAt|Result)\(`)
 
 func qualifySpec(s string) string {
 	for {
